@@ -420,7 +420,7 @@ impl<'a, T: Read + Write + Seek> PointCloudWriter<'a, T> {
             Error::invalid("Number of values does not match prototype length")?
         }
 
-        // Go over all values to validate and extract min/max values
+        // Go over all values to validate them before anything is changed
         for (i, p) in self.prototype.iter().enumerate() {
             let value = &values[i];
 
@@ -455,7 +455,12 @@ impl<'a, T: Read + Write + Seek> PointCloudWriter<'a, T> {
                 }
                 _ => {}
             }
+        }
 
+        // Go over all values again to extract min/max values.
+        // This must happen after the validation above to make sure
+        // that rejected points do not influence the bounds.
+        for (i, p) in self.prototype.iter().enumerate() {
             // Update cartesian bounds
             if p.name == RecordName::CartesianX
                 || p.name == RecordName::CartesianY
